@@ -109,6 +109,7 @@ def labelOf? (j : Json) : Option (Lb × Option (Nat × Bool)) := do
     | [.str "spawnBegin", ks] => do some (Label.spawnBegin (← (← jArr? ks).mapM kindOf?))
     | [.str "spawn", r] => do some (Label.spawn (← jStr? r))
     | [.str "spawnEnd"] => some Label.spawnEnd
+    | [.str "die", r] => do some (Label.die (← jStr? r))
     | [.str "check", r, o, on] => do some (Label.check (← jStr? r) (← jStr? o) (← jBool? on))
     | [.str "arrive", r, o, g, t] => do some (Label.arrive (← jStr? r) (← jStr? o) (← jBool? g) (← jBool? t))
     | [.str "listed", r] => do some (Label.listed (← jStr? r))
@@ -125,7 +126,7 @@ def labelOf? (j : Json) : Option (Lb × Option (Nat × Bool)) := do
   some (l, snap)
 
 def toggles (s : GS) : Nat :=
-  (if s.blocker then 1 else 0) + s.resTog.length + s.objTog.length + s.leaked.length
+  (if s.blocker then 1 else 0) + s.resTog.length + s.objTog.length + s.leaked.length + s.leakedK.length
 
 def isHandle : Lb → Bool
   | .handle _ _ => true
@@ -135,7 +136,7 @@ def isHandle : Lb → Bool
 def replay : GS → Nat → List (Lb × Option (Nat × Bool)) → List Bool → Json
   | s, _, [], acc =>
     Json.mkObj [("accepted", .bool true), ("handled", .bool s.handled), ("ready", .bool (readyB s)), ("ready1", .bool (ready1B s)),
-                ("everOn", .bool s.everOn), ("toggles", .num (JsonNumber.fromNat (toggles s))),
+                ("everOn", .bool s.everOn), ("first", .arr (s.first.map Json.str).toArray), ("toggles", .num (JsonNumber.fromNat (toggles s))),
                 ("readyAtHandle", .arr (acc.reverse.map Json.bool).toArray)]
   | s, i, (l, snap) :: rest, acc =>
     match Gate.step .none s l with
